@@ -4,6 +4,8 @@
    theorem in C02.) *)
 From XcpModel Require Import Base Sparse CopyLoop Updater.
 From XcpProofs Require Import CopyLoopProofs UpdaterProofs.
+From XcpModel Require Import Extracted.
+From XcpProofs Require Import ExtractedOk.
 
 (* batching (ChannelUpdater): for EVERY send order and block size, what is
    delivered never reports more copied bytes than were passed to send; Size and
@@ -62,9 +64,16 @@ Example C12_nonvacuous :
   = [USize 250; UCopied 60; UError; UCopied 70].
 Proof. vm_compute. reflexivity. Qed.
 
+(* ---- tie to the current source (translator): the model's definitions used above are
+   EQUAL to what /verif/xlate extracts from the repository on this run ---- *)
+Theorem C12_src_send_condition : forall bs sent b,
+  chan_send bs sent (UCopied b) = (sent + b, if x_send_cond sent b bs then [UCopied b] else []).
+Proof. exact x_send_cond_ok. Qed.
+
 Print Assumptions C12_batching_sound.
 Print Assumptions C12_delivery_is_prefix_monotone.
 Print Assumptions C12_copy_bytes_reports_le_len.
 Print Assumptions C12_block_job_reports_le_block.
 Print Assumptions C12_prefix_bound.
 Print Assumptions C12_prefix_bound_delivered.
+Print Assumptions C12_src_send_condition.
